@@ -79,28 +79,37 @@ func genC03(d *Draw) Case {
 	g.addNode(&Node{ID: "F", Kind: "and"})
 	g.connect(defs, cur, "F", nil, -1)
 	g.addNode(&Node{ID: "G", Kind: "and"})
+	// conditions on flows that leave a parallel gateway have no say (tokens go out on every flow): some of the
+	// flows leaving the fork and the gateway carry one that does not hold
+	condOut := d.N(3) == 2
+	never := func() *Cond {
+		if condOut && d.Bool() {
+			return &Cond{Var: "never", Want: true}
+		}
+		return nil
+	}
 	// some of the flows into and out of the gateway carry no activity: their tokens arrive the moment the
 	// fork has fired, and leave straight into the closing join
 	nd, md := 0, 0
 	for i := 1; i <= n; i++ {
 		if d.N(4) == 3 {
-			g.connect(defs, "F", "G", nil, -1)
+			g.connect(defs, "F", "G", never(), -1)
 			nd++
 			continue
 		}
 		u := mk(fmt.Sprintf("U%d", i))
-		g.connect(defs, "F", u.ID, nil, -1)
+		g.connect(defs, "F", u.ID, never(), -1)
 		g.connect(defs, u.ID, "G", nil, -1)
 	}
 	g.addNode(&Node{ID: "J", Kind: "and"})
 	for j := 1; j <= m; j++ {
 		if d.N(4) == 3 {
-			g.connect(defs, "G", "J", nil, -1)
+			g.connect(defs, "G", "J", never(), -1)
 			md++
 			continue
 		}
 		dn := mk(fmt.Sprintf("D%d", j))
-		g.connect(defs, "G", dn.ID, nil, -1)
+		g.connect(defs, "G", dn.ID, never(), -1)
 		g.connect(defs, dn.ID, "J", nil, -1)
 	}
 	cur = "J"
@@ -120,10 +129,10 @@ func genC03(d *Draw) Case {
 		g.connect(defs, "J", "End", nil, -1)
 	}
 	g.index()
-	prog := &Program{Defs: defs, Vars: map[string]any{}, Desc: fmt.Sprintf("parallel %dx%d activations=%d (flows without activity: %d in, %d out)", n, m, acts, nd, md)}
+	prog := &Program{Defs: defs, Vars: map[string]any{"never": false}, Desc: fmt.Sprintf("parallel %dx%d activations=%d (flows without activity: %d in, %d out; conditions on outgoing flows: %v)", n, m, acts, nd, md, condOut)}
 	c := &ProcCase{Prog: prog, Buf: d.N(17), Hold: 1 + d.N(2)}
 	c.Picks = drawPicks(d, 40)
-	c.Meta = map[string]int{"n": n, "m": m, "acts": acts, "nd": nd, "md": md}
+	c.Meta = map[string]int{"n": n, "m": m, "acts": acts, "nd": nd, "md": md, "condOut": b2i(condOut)}
 	return c
 }
 
@@ -180,6 +189,7 @@ func checkC03(cc Case, r *simrt.Result) *Outcome {
 	probe(o, "surplus-consumed", completions > 0)
 	probe(o, "fanout-gt-fanin", m > n)
 	probe(o, "flows-without-activity-at-the-gateway", c.Meta["nd"]+c.Meta["md"] > 0)
+	probe(o, "conditions-on-flows-leaving-parallel-gateways", c.Meta["condOut"] == 1)
 	o.Sample = map[string]any{"program": c.Prog.Desc, "buf": c.Buf, "hold": c.Hold, "answer_order": answerOrder(c.env)}
 	return o
 }
